@@ -239,7 +239,8 @@ def run(ctx):
             else:
                 ctx.violated(r3, shim, f"minimizer_kwargs func/do_grad [do_stitch={do_stitch}]", "the minimiser does not receive the wrapped objective / the gradient flag", found=str({k: str(v) for k, v in mkw.items()}))
             wa, wk = rec3["wrap"]
-            jp = wk.get("jit_pieces", {})
+            from ..alg import as_record
+            jp = as_record(wk.get("jit_pieces", {}))
             okw = getattr(wa[0], "name", "") == "objective" and getattr(wa[2], "name", "") == "pdf" and getattr(wa[3], "name", "") == ("STITCH") and getattr(wk.get("do_grad"), "name", "") == "DO_GRAD"
             okj = isinstance(jp, dict) and [int(to_poly(x).const_value()) for x in jp.get("fixed_idx", [])] == [0, 2] and [int(to_poly(x).const_value()) for x in jp.get("variable_idx", [])] == [1, 3] and [str(to_poly(x)) for x in jp.get("fixed_values", [])] == list(fv) and jp.get("do_stitch") is do_stitch
             if okw and okj:
@@ -908,7 +909,8 @@ def jax_objective_point(ctx, rid, repo, table, mk, shim):
                 pdf_ = Obj("pdf", {"config": Obj("config", {"npars": Poly.const(npar)})})
                 w.call_func(shim, [Obj("objective"), Obj("data"), pdf_, [Poly.atom(f"i{j}") for j in range(npar)], [Poly.atom(f"b{j}") for j in range(npar)]],
                             {"fixed_vals": [(Poly.const(j), Poly.atom(f"v{j}")) for j in fixed_list], "do_grad": True, "do_stitch": True})
-                jp = cap.get("jit_pieces") or {}
+                from ..alg import as_record
+                jp = as_record(cap.get("jit_pieces") or {})
                 objective = PyFunc(lambda a, k: (seen_obj.append(a[0]) or [Poly.atom("NLL")]), "objective")
                 from ..listnp import T as _T
                 # by parameter NAME: the order of the eight parameters is the definition's business (and its call sites')
